@@ -54,6 +54,18 @@ CHECKS = {
   text="skip_file: byte-identical through format_code (drawn options), echoed by the stdin mode, and never opened for writing by any worker, pass or schedule of the simulated CLI. ignore: a transaction touching an ignored line is dropped whole and every ignored physical line is verbatim after any scheduler pass (incl. rollback, re-indentation, pass insertion); through the direct back-end and end to end the clause is sampled and currently shows two known findings (removal back-end and renaming back-end have no ignore test), attributed by call site so that any other violation is still reported.",
   note="stdin mode: the newline print() appends is framing. End-to-end lines are compared modulo trailing white space (trimming is whole-file layout normalisation). Known findings K2/K3 in KNOWN_FINDINGS.txt.",
   ref="DESIGN.md 4 (C20)"),
+ "C08": dict(
+  engine="e3_pool",
+  technique="deterministic simulation of the multi-party clause: real CLI with --preserve over generated library + client trees, SimPool with real forked workers under seeded schedules and up to five passes; oracle independent of the tool's own name collection (plain ast + importing every client in a fork); plus format_code(x, preserve=P) on seeded inputs",
+  text="The cross-file clause is multi-party by nature (the tool reads client files, derives names, ships per-file preserve sets to pool workers, iterates passes in which one rule turns a method into a function and a later one deletes it); it is decided by seeded search over generated library/client pairs, access forms, CLI shapes and worker schedules. The within-file clause is sampled through format_code with drawn preserve sets. Exploration: program space is generator-bound; simulation adds schedule / pass / worker-history.",
+  note="Methods are judged only if their class is referenced too; variables count as preserved when the name is still bound at module scope. Two genuine defects found this way were repaired (see KNOWN_FINDINGS fixed: lines).",
+  ref="DESIGN.md 4 (C08)"),
+ "C18": dict(
+  engine="e3_pool",
+  technique="deterministic simulation with the simulator owning the storage peer: generated package trees on a scratch disk in every layout of the statement, clients formatted by the real CLI under SimPool schedules (which worker, with which sys.modules / finder-cache history, handles which file; what it reads through tracing); oracle by executing original and final client text as two modules of one process and comparing object identity",
+  text="Import normalisation consults the disk and the interpreter's import state, so it is not a function of the source string; the check builds the package tree, runs the real CLI over the clients sequentially and under seeded multi-worker schedules, and compares by execution which objects every function returns and every module variable holds before and after (identity, same process). Exploration over layouts x import forms x schedules; one known finding (K4) listed.",
+  note="Shape (i) only (static libraries); guessed imports of previously undefined names are not generated; definitions are matched by position because the tool may rename them outside safe mode.",
+  ref="DESIGN.md 4 (C18)"),
 }
 
 def main():
